@@ -12,12 +12,12 @@ CHECKS = {
  "C01": dict(
    engine="E1-sweep", category="model_checking", ref="§3 C01",
    technique="exhaustive enumeration of all 2^32 random words per bound on the real code (scripted crypto/rand.Reader), histogram equality",
-   text="For each listed bound n, every one of the 2^32 possible first words (and continuations after rejected words) is run through the real randomUint32n; the per-outcome histogram must be exactly flat, fewer than half the words rejected, rejected words redrawn. This is a complete enumeration of the draw's input space for those n, which is the only way to see a 1-in-2^32 bias.",
+   text="For each listed bound n, every one of the 2^32 possible first words (and continuations after rejected words) is run through the real randomUint32n; the per-outcome histogram must be exactly flat, fewer than half the words rejected, rejected words redrawn. This is a complete enumeration of the draw's input space for those n, which is the only way to see a 1-in-2^32 bias. Also: runs of 2 to 100000 rejected words must all be redrawn, and (boundary layer, every n<=2^12/2^16 and 2^k+-d) words delivered 1/2/3 bytes per read must give the same outcome.",
    note="Bounds outside the swept list get only the boundary-word layer (necessary conditions). Trusted: go1.23.5 crypto/rand.Read = io.ReadFull(Reader, b); the histogram code in /verif/harness/checks/c01.go."),
  "C02": dict(
    engine="E1-cells", category="model_checking", ref="§3 C02, §2.2",
    technique="stateless DFS over every outcome combination of every bounded draw of the real Generate (complete cell), exact rational output distribution compared with an independent model",
-   text="Every combination of draw outcomes is executed on the real code for each recipe of a ~68k-recipe configuration set, 1-3 candidates deep; the exact probability of every returned string is computed as a rational and must be equal over exactly the model's valid strings. Single-word lift/reject deviations show that only the accepted outcome of a draw matters.",
+   text="Every combination of draw outcomes is executed on the real code for each recipe of a ~68k-recipe configuration set, 1-3 candidates deep; the exact probability of every returned string is computed as a rational and must be equal over exactly the model's valid strings. Single-word lift/reject deviations show that only the accepted outcome of a draw matters. Long passwords (2-65, thorough 257 characters): every execution in which exactly one draw supplies the required character, with a position-coverage oracle before and after rejected candidates. Every leaf is replayed with one byte per read and with runs of rejected words; ordered pairs of confusable recipes run in one process.",
    note="Relies on C01 for per-draw uniformity; cells are bounded (lengths 1-3 for custom alphabets, class-sized alphabets up to 10^4 leaves); retry depth cut at 1-3 candidates with the cut mass accounted."),
  "C07": dict(
    engine="E-config", category="model_checking", ref="§3 C07",
@@ -27,32 +27,32 @@ CHECKS = {
  "C13": dict(
    engine="E1-cells", category="model_checking", ref="§3 C13",
    technique="exhaustive enumeration of recipe configurations and of a scripted all-attempts-fail random tape on the real Generate/SuccessProbability, against an exact rational model",
-   text="All recipes of the overlap universe and all 2^15 flag triples are run through the real SuccessProbability and Generate (panics recovered) and compared with the exact rational success probability and the refusal rule derived from it; degenerate character and wordlist values are enumerated; a tape policy on which every candidate fails checks the attempt budget under five (MaxTrials, MaxFailRate) settings.",
+   text="All recipes of the overlap universe and all 2^15 flag triples are run through the real SuccessProbability and Generate (panics recovered) and compared with the exact rational success probability and the refusal rule derived from it; degenerate character and wordlist values are enumerated; a tape policy on which every candidate fails checks the attempt budget under five (MaxTrials, MaxFailRate) settings. Degenerate wordlist recipes are crossed with every scheme and separator setting; a stream on which Generate never stops drawing is cut off and reported as a budget violation.",
    note="Lengths bounded (1-8, 20 for flag triples); a rounding band around the refusal threshold is classified 'either'; recipes with a required set emptied by exclusion are 'either' (see DESIGN §4)."),
  "C03": dict(
    engine="E1-cells", category="model_checking", ref="§3 C03",
    technique="exhaustive enumeration of all 2^15 class-flag triples x custom settings, deviation-bounded exploration of the draws of the real Generate (each position forced to each alphabet index), token-level oracle from an independent model",
-   text="Every flag triple is crossed with 9 custom-string settings and 3 lengths; Alphabet() must equal the model's alphabet exactly, and every password returned on policy tapes that force each alphabet index (including the last) at each position, and that make the first candidate miss each requirement in turn, must consist of Length single-character atoms from the alphabet, meet every live requirement and contain no excluded character.",
+   text="Every flag triple is crossed with 9 custom-string settings and 3 lengths; Alphabet() must equal the model's alphabet exactly, and every password returned on policy tapes that force each alphabet index (including the last) at each position, and that make the first candidate miss each requirement in turn, must consist of Length single-character atoms from the alphabet, meet every live requirement and contain no excluded character. The ordered-pair pass over confusable recipes (state leaking between recipes) and the enumeration of all 120 iteration orders of the class map (instrumented build) are part of the check.",
    note="Deviation bound 1 (quick) / 2 (thorough) draws per execution relative to a model-chosen valid candidate; complete outcome products are covered for small alphabets by C02. Full position x index forcing only for the 3-class flag subset; other triples force first/last position to indices 0,1,last."),
  "C04": dict(
    engine="E1-cells", category="model_checking", ref="§3 C04",
    technique="stateless DFS over every outcome combination of every bounded draw of the real WLRecipe.Generate (complete cell); exact rational distribution over token sequences equals the uniform independent product",
-   text="For 10 word lists (sizes 1,2,3,5; twins, caseless, pre-capitalised, non-ASCII), lengths 1-3, the five schemes and 10 separator settings, every combination of word, capitalisation and separator draws is executed; each password's exact probability must equal that of the uniform product space pushed through title-casing - which fails if any coordinate is non-uniform, correlated, reused or out of range.",
+   text="For 10 word lists (sizes 1,2,3,5; twins, caseless, pre-capitalised, non-ASCII), lengths 1-3, the five schemes and 10 separator settings, every combination of word, capitalisation and separator draws is executed; each password's exact probability must equal that of the uniform product space pushed through title-casing - which fails if any coordinate is non-uniform, correlated, reused or out of range. Lengths 4-130 (thorough 300) are covered by single-deviation coverage exploration (each word at each position, each capitalisation coordinate, each separator value per gap) plus a pigeonhole bound; leaves are replayed with one byte per read and with runs of rejected words.",
    note="Relies on C01; cells bounded (<=6000 leaves quick, <=300000 thorough); lists violating the title-casing premise are skipped when capitalisation is on; retrying separator recipes are outside complete cells."),
  "C05": dict(
    engine="E1-cells", category="model_checking", ref="§3 C05",
    technique="the same complete cells, every leaf checked against the token grammar; deviation-bounded DFS (<=2-3 deviating draws) for separator recipes with retries",
-   text="Every password produced in the complete cells of C04's configuration set, plus unknown scheme strings, 255-character words, lengths 4-5 and multi-byte separators, is parsed token by token: A (S A)* with exactly Length atoms, separators from the separator's value set, capitalisation pattern per scheme, String()/Atoms()/Separators() consistent.",
+   text="Every password produced in the complete cells of C04's configuration set, plus unknown scheme strings, 255-character words, lengths 4-5 and multi-byte separators, is parsed token by token: A (S A)* with exactly Length atoms, separators from the separator's value set, capitalisation pattern per scheme, String()/Atoms()/Separators() consistent. Lengths 16-257 (thorough 1000) with at most one deviating draw, title-casing corner-case words and a caller-written separator that is sometimes empty are included.",
    note="Positions holding words that do not change under title-casing cannot reveal the capitalisation choice and are skipped; the empty word is outside the explored alphabet."),
  "C06": dict(
    engine="E1-cells", category="model_checking", ref="§3 C06",
    technique="exact rational output distributions from complete-cell DFS of the real generators; max probability compared with 2^-Entropy()",
-   text="Uses the exact output distributions of C02's character cells and C04's wordlist cells (plus lists with uncapitalisable words under one/random): no password may be likelier than 2^-Entropy() (8 float32 ulps), equality must hold when generation is uniform, every returned Password.Entropy must be bit-identical to Entropy(), and Entropy() must not depend on the random stream.",
+   text="Uses the exact output distributions of C02's character cells and C04's wordlist cells (plus lists with uncapitalisable words under one/random): no password may be likelier than 2^-Entropy() (8 float32 ulps), equality must hold when generation is uniform, every returned Password.Entropy must be bit-identical to Entropy(), and Entropy() must not depend on the random stream. Long wordlist recipes (8-130 words) are judged by a pigeonhole bound (Entropy() <= bits of randomness one generation consumes) and by the coverage exploration; small cells are re-explored with a source delivering one byte per read.",
    note="Same bounds as C02/C04; probabilities of retrying recipes are conditioned on success."),
  "C11": dict(
    engine="E1-cells", category="model_checking", ref="§3 C11",
    technique="exhaustive enumeration of token sequences reachable through the public API (all leaves of generation cells; all Tokenize constructions over a small alphabet), round trip through the real MakeIndices/Tokenize",
-   text="Every password of the complete wordlist and multi-byte character cells, words and separators of 127-256 characters (ASCII and 2-byte), and every token sequence constructible with Tokenize from <=4-character strings and <=5-byte indices is encoded and decoded again; values, types, entropy bits and the documented index size must match, and tokens beyond 255 characters must be refused or at least not lossy.",
+   text="Every password of the complete wordlist and multi-byte character cells, words and separators of 127-256 characters (ASCII and 2-byte), and every token sequence constructible with Tokenize from <=4-character strings and <=5-byte indices is encoded and decoded again; values, types, entropy bits and the documented index size must match, and tokens beyond 255 characters must be refused or at least not lossy. Also: invalid-UTF-8 tokens, character passwords of up to 70000 characters, every atom/separator pattern of 1-7 tokens, and validity of earlier indices after later MakeIndices calls.",
    note="Token sequences with empty tokens or undocumented type bytes are outside the property's premise and only counted (observation in DESIGN §4)."),
  "C12": dict(
    engine="E-config", category="model_checking", ref="§3 C12",
@@ -72,7 +72,7 @@ CHECKS = {
  "C18": dict(
    engine="E1-cells", category="model_checking", ref="§3 C18",
    technique="complete-cell DFS of the real generators with fd-level capture of stdout/stderr/log per execution; secret-glyph search plus non-interference across random streams and across two alphabet relabellings",
-   text="Recipes are instantiated over glyphs that occur in no diagnostic text; every execution of their cells (returned, retried, refused, all-attempts-fail), NewWordList with duplicates and the entropy entry points are run with file descriptors 1 and 2 captured. No glyph may appear, and the captured text must be the same for every stream of an outcome class and for both relabellings - so it cannot encode the secret even indirectly.",
+   text="Recipes are instantiated over glyphs that occur in no diagnostic text; every execution of their cells (returned, retried, refused, all-attempts-fail), NewWordList with duplicates and the entropy entry points are run with file descriptors 1 and 2 captured. No glyph may appear, and the captured text must be the same for every stream of an outcome class and for both relabellings - so it cannot encode the secret even indirectly. A source failure is injected at each of the first 6-8 reads; alphabets with bytes that are not valid UTF-8 are included.",
    note="Outcome classes are (returned/failed, words consumed); diagnostics may legitimately depend on those. Class-based recipes use non-interference only."),
  "C08": dict(
    engine="E2-maporder", category="model_checking", ref="§3 C08, §1 E2",
@@ -87,17 +87,17 @@ CHECKS = {
  "C15": dict(
    engine="E4-sequences", category="model_checking", ref="§3 C15, §1 E4",
    technique="exhaustive enumeration of all API-call/field-update sequences up to depth 4-5 over 18 operations on live values, with a differential oracle (same call on freshly built values, same scripted random stream), a snapshot oracle and a reference-model oracle",
-   text="Every sequence of queries (Generate/Entropy/Alphabet/SuccessProbability, separator functions) and caller-side updates (including an in-place edit of the RequireSets slice) up to the depth bound is executed; after each query the caller-visible state must equal its snapshot, the result and bytes consumed must equal those of the same call on freshly constructed values, and the result must fit the model evaluated on the current fields (which catches state cached outside the values).",
+   text="Every sequence of queries (Generate/Entropy/Alphabet/SuccessProbability, separator functions) and caller-side updates (including an in-place edit of the RequireSets slice) up to the depth bound is executed; after each query the caller-visible state must equal its snapshot, the result and bytes consumed must equal those of the same call on freshly constructed values, and the result must fit the model evaluated on the current fields (which catches state cached outside the values). Part B: all ordered pairs of ~75 confusable character recipes and 96 wordlist recipes sharing a list (queries on A, then B checked against the model); operations include calls on a source that fails mid-call and by-value copies of a recipe.",
    note="Depth bound 4 (quick) / 5 (thorough); instrumented build so that word order of freshly built lists is canonical; no state hashing (plain sequence enumeration)."),
  "C17": dict(
    engine="E5-cli", category="exploration", ref="§3 C17, §1 E5",
    technique="exhaustive enumeration of the flag-value product per subcommand, run against the built binary with a scripted random tape, compared with the library/model recipe the flags denote",
-   text="The CLI's input space is a finite product of documented flag values; all combinations (within the stated value lists) are run through the real binary. stdout must be exactly one line - the library's password on the same tape or at least a password the denoted recipe can generate, or its entropy to two decimals - with status 0; refused recipes must exit 1 and usage errors 2 without printing a password.",
+   text="The CLI's input space is a finite product of documented flag values; all combinations (within the stated value lists) are run through the real binary. stdout must be exactly one line - the library's password on the same tape or at least a password the denoted recipe can generate, or its entropy to two decimals - with status 0; refused recipes must exit 1 and usage errors 2 without printing a password. Flag values include class lists with several blanks and repeated names; word files with duplicates, twins, one word, '%' characters, a 64 KiB line and a 70000-character word.",
    note="Exploration level: values per flag are a stated finite list (documented names only); word passwords are validated by segmentation against the normalised list because word order inside the binary's list is not controlled."),
  "C14": dict(
    engine="E3-scheduler", category="model_checking", ref="§3 C14, §1 E3",
    technique="stateless deviation-bounded DFS over thread schedules of the real code under a controlled scheduler (futex hand-off invisible to the race detector), -race build of a source-instrumented copy; per-schedule result, snapshot, deadlock and race-report oracles",
-   text="Nine small harness bodies share one CharRecipe, WLRecipe, WordList, a constructed separator function and the package-level presets between 2-3 threads. Every schedule with at most 1 (quick) / 2 (thorough, two-thread scenarios) deviations from the default schedule, at statement granularity in package spg and lock granularity in golang-set, is executed. Because hand-offs create no happens-before edge, the race detector checks every explored schedule; results must equal each call's sequential result on its own random stream and shared values must be unchanged.",
+   text="Nine small harness bodies share one CharRecipe, WLRecipe, WordList, a constructed separator function and the package-level presets between 2-3 threads. Every schedule with at most 1 (quick) / 2 (thorough, two-thread scenarios) deviations from the default schedule, at statement granularity in package spg and lock granularity in golang-set, is executed. Because hand-offs create no happens-before edge, the race detector checks every explored schedule; results must equal each call's sequential result on its own random stream and shared values must be unchanged. 19 scenarios; every schedule starts from freshly built shared values and each scenario runs first (cold package state) in one worker.",
    note="Bounded deviations (preemptions and non-default thread choices both cost 1); trusts the Go race detector for raw access pairs; helper goroutines of golang-set's Iter() run free; Go memory-model effects beyond race reports are not modelled."),
 }
 
